@@ -273,10 +273,77 @@ C03Checks(pre, a, res, post) ==
 \* ---------------------------------------------------------------- C05  block processing is total
 C05Checks(a, res) == Fail(a.k \in {"Begin", "End"} /\ res.out # "ok", "C05:BlockOpsTotal", res.out)
 
+\* ---------------------------------------------------------------- C09  signer sets mirror bonded power
+NewSignerSets(pre, post, c) == {x \in post.ch[c].ss : ~\E o \in pre.ch[c].ss : o.n = x.n}
+LSum(seq) == FoldLeft(LAMBDA acc, m : LAdd(acc, m[2]), <<0, 0>>, seq)
+SortedOk(cfg, m) == \A i \in 1..(Len(m) - 1) : MemberBefore(cfg, m[i], m[i + 1])
+C09Checks(pre, a, post) ==
+    UNION {
+      UNION {
+           Fail(RangeOf(x.m) # CurrentSigners(post, c), "C09:MembersAndPowers", c)
+      \cup Fail(Cardinality(RangeOf(x.m)) # Len(x.m), "C09:DuplicateMember", c)
+      \cup Fail(~SortedOk(Cfg(post), x.m), "C09:Order", c)
+      \cup Fail(LLess(<<65535, 65535>>, LSum(x.m)), "C09:TotalAbove2^32", c)
+      \cup Fail({m[1] : m \in RangeOf(x.m)} # {post.ch[c].ve[v] : v \in BondedWithKey(post, c)}, "C09:Members", c)
+         : x \in NewSignerSets(pre, post, c)}
+      \cup Fail({x.n : x \in NewSignerSets(pre, post, c)} # (pre.ch[c].ssn + 1)..post.ch[c].ssn, "C09:NonceNotNext", c)
+      \cup Fail(post.ch[c].ssn < pre.ch[c].ssn, "C09:NonceDecreased", c)
+      \cup Fail(a.k # "Begin" /\ NewSignerSets(pre, post, c) # {}, "C09:CreatedOutsideBeginBlock", c)
+           \* after BeginBlock the latest published set is within 5% of the current validator set
+      \cup (IF a.k = "Begin" /\ c # "hub"
+            THEN LET latest == {x \in post.ch[c].ss : x.n = post.ch[c].ssn}
+                 IN Fail(latest = {} \/ \E x \in latest : PowerDiffExceeds(CurrentSigners(post, c), RangeOf(x.m)), "C09:FreshAfterBegin", c)
+            ELSE {})
+      : c \in Chains(post)}
+
+\* ---------------------------------------------------------------- C17  delegate-key registry
+C17Inv(post) ==
+    UNION {
+        Fail(\E v1, v2 \in DOMAIN post.ch[c].ve : v1 # v2 /\ post.ch[c].ve[v1] = post.ch[c].ve[v2], "C17:ExtNotInjective", c)
+   \cup Fail(\E v \in DOMAIN post.ch[c].ve :
+               LET e == post.ch[c].ve[v] IN ~(Has(post.ch[c].eo, e) /\ Has(post.ch[c].ov, post.ch[c].eo[e]) /\ post.ch[c].ov[post.ch[c].eo[e]] = v),
+             "C17:MapsInconsistent", c)
+      : c \in Chains(post)}
+C17Register(pre, a, res, post) ==
+    IF a.k # "SetKeys" \/ a.chain \notin Chains(pre) THEN {}
+    ELSE LET c == pre.ch[a.chain]
+             authorised == a.txby = a.val /\ a.sigkey = a.ext /\ a.sigseq = 0 /\ a.sigval = a.val
+             free == (~\E v \in DOMAIN c.ve : c.ve[v] = a.ext) /\ (~\E e \in DOMAIN c.eo : c.eo[e] = a.orch)
+             exists == a.val \in DOMAIN pre.stk /\ pre.stk[a.val].x
+         IN   Fail(res.out = "ok" /\ ~authorised, "C17:NotSelfAuthorised", a.chain)
+         \cup Fail(res.out = "ok" /\ ~free, "C17:AddressReused", a.chain)
+         \cup Fail(res.out = "ok" /\ ~exists, "C17:UnknownValidator", a.chain)
+         \cup Fail(res.out = "ok" /\ ~(Get(post.ch[a.chain].ve, a.val, "") = a.ext /\ Get(post.ch[a.chain].ov, a.orch, "") = a.val /\ Get(post.ch[a.chain].eo, a.ext, "") = a.orch), "C17:BindingNotRecorded", a.chain)
+         \cup Fail(res.out = "err" /\ authorised /\ free /\ exists, "C17:ValidRegistrationRejected", a.chain)
+\* the registry changes only through an accepted registration
+C17Frozen(pre, a, res, post) ==
+    UNION {Fail(~(a.k = "SetKeys" /\ res.out = "ok" /\ a.chain = c) /\
+                <<pre.ch[c].ve, pre.ch[c].ov, pre.ch[c].eo>> # <<post.ch[c].ve, post.ch[c].ov, post.ch[c].eo>>, "C17:ChangedWithoutRegistration", c)
+           : c \in Chains(post)}
+
+\* ---------------------------------------------------------------- C16  confirmations
+SigCount(s, c) == FoldSet(LAMBDA gsig, acc : acc + Cardinality(DOMAIN gsig.by), 0, s.ch[c].sigs)
+C16Confirm(pre, a, res, post) ==
+    IF a.k # "Confirm" THEN UNION {Fail(SigCount(post, c) > SigCount(pre, c), "C16:RecordedWithoutConfirm", c) : c \in Chains(post)}
+    ELSE IF a.chain \notin Chains(pre) THEN Fail(res.out = "ok", "C16:UnknownChainAccepted", a.chain)
+    ELSE LET c == a.chain
+             v == SignerVal(pre, c, a.by)
+             should == /\ v # "" /\ TxExists(pre, c, a.tx) /\ a.tx.n # 0
+                       /\ Has(pre.ch[c].ve, v) /\ pre.ch[c].ve[v] = a.ext
+                       /\ ~Has(SigsOf(pre, c, a.tx), v)
+         IN   Fail(res.out = "ok" /\ ~should,
+                   "C16:ConfirmRule", IF v # "" /\ ~Has(pre.ch[c].ve, v) /\ a.ext = "zero" THEN "zero-address" ELSE "accepted")
+         \cup Fail(res.out = "err" /\ should, "C16:ConfirmRule", "rejected")
+         \cup Fail(res.out = "ok" /\ ~(Has(SigsOf(post, c, a.tx), v) /\ SigCount(post, c) = SigCount(pre, c) + 1), "C16:NotRecordedOnce", c)
+         \cup Fail(res.out = "ok" /\ v # "" /\ Has(SigsOf(post, c, a.tx), v) /\ SigsOf(post, c, a.tx)[v] # a.key, "C16:WrongSignatureStored", c)
+         \cup Fail(\E c2 \in Chains(post) \ {c} : post.ch[c2].sigs # pre.ch[c2].sigs, "C16:OtherChainTouched", c)
+         \cup Fail(\E gsig \in pre.ch[c].sigs : \E w \in DOMAIN gsig.by : ~Has(SigsOf(post, c, gsig.tx), w) \/ SigsOf(post, c, gsig.tx)[w] # gsig.by[w], "C16:Overwritten", c)
+
 \* ---------------------------------------------------------------- known findings
 \* A deviation switch that stands for a recorded (not repaired) finding excuses exactly the check detail that
 \* describes it; every other failure of the same property is still a violation.
 Excused(f) ==
+    \/ "ConfirmZeroAddress" \in Dev /\ f = <<"C16:ConfirmRule", "zero-address">>
     \/ "RefundTruncatedDust" \in Dev /\ f \in {<<"C12:RefundExact", "dust">>, <<"C12:ExpiryRefundExact", "dust">>, <<"C12:ExpiredKept", "zero-dust">>}
 
 \* ---------------------------------------------------------------- all step checks that need no external world
@@ -286,5 +353,7 @@ StepChecks(g, pre, a, res, post) ==
   \cup C12Cancel(g, pre, a, res, post) \cup C12Expiry(g, pre, a, post)
   \cup C11Send(pre, a, res, post) \cup C11Others(pre, a, res, post) \cup C11Deposit(pre, a, post)
   \cup C02Checks(pre, a, post) \cup C02Vote(pre, a, res, post) \cup C03Checks(pre, a, res, post) \cup C05Checks(a, res)
+  \cup C09Checks(pre, a, post) \cup C17Inv(post) \cup C17Register(pre, a, res, post) \cup C17Frozen(pre, a, res, post)
+  \cup C16Confirm(pre, a, res, post)
 
 =============================================================================
